@@ -76,6 +76,7 @@ class Tally:
         self.assumptions = []
         self.extra = {}
         self._vseen = set()
+        self.cur = None  # what the worker is executing right now (module, params, emitted edge): stored with a violation for replay
 
     # -- clause results -------------------------------------------------------------------------
     def ok(self, prop, clause, n=1):
@@ -92,6 +93,8 @@ class Tally:
         c[0] += 1
         c[1] += 1
         key = (clause, jdump(sig or {}))
+        if self.cur is not None and isinstance(replay, dict) and "_replay" not in replay:
+            replay = dict(replay, _replay=self.cur)
         if len(self.violations) < self.MAX_KEEP or key not in self._vseen:
             if len(self.violations) < 400:
                 self.violations.append(Violation(prop, clause, engine, replay, sig))
